@@ -5,6 +5,7 @@ import (
 	"encoding/json"
 	"fmt"
 	"path/filepath"
+	"regexp"
 	"strings"
 
 	"github.com/ddddddO/gtree"
@@ -27,7 +28,10 @@ type c09Replay struct {
 	Exts          []string `json:"exts"`
 	Route         string   `json:"route"` // output-dry | mkdir-md-dry | mkdir-root-dry
 	Extra         string   `json:"extra_options,omitempty"`
+	Color         bool     `json:"color,omitempty"` // colours switched on (a terminal): the report is judged with the SGR sequences removed
 }
+
+var sgr = regexp.MustCompile("\x1b\\[[0-9;]*m")
 
 // options that do not concern a Mkdir dry run
 var c09Extras = []string{"json", "yaml", "toml", "noiter", "strict", "nil", "strict,toml,nil"}
@@ -42,6 +46,18 @@ func c09Dry(route, doc string, root *model.Node, exts []string, target string, e
 		switch route {
 		case "output-dry":
 			err = gtree.OutputFromMarkdown(&buf, strings.NewReader(doc), opts...)
+		case "output-dry-alias":
+			err = gtree.Output(&buf, strings.NewReader(doc), opts...)
+		case "mkdir-md-dry-alias":
+			old := color.Output
+			color.Output = &buf
+			err = gtree.Mkdir(strings.NewReader(doc), opts...)
+			color.Output = old
+		case "mkdir-root-dry-alias":
+			old := color.Output
+			color.Output = &buf
+			err = gtree.MkdirProgrammably(sut.BuildRoot(root), opts...)
+			color.Output = old
 		case "mkdir-md-dry":
 			old := color.Output
 			color.Output = &buf
@@ -69,11 +85,21 @@ func c09Case(c *rep.Ctx, r c09Replay) {
 	}
 	before := fsx.Snapshot(j.Root)
 	var root *model.Node
-	if r.Route == "mkdir-root-dry" {
+	if strings.HasPrefix(r.Route, "mkdir-root-dry") {
 		root = f[0]
 	}
 	extsGiven := append([]string{}, r.Exts...)
+	if r.Color {
+		color.NoColor = false
+	}
 	out, err, pan := c09Dry(r.Route, doc, root, r.Exts, target, r.Extra)
+	if r.Color {
+		color.NoColor = true
+		if err == nil && len(f) > 0 && !strings.Contains(out, "\x1b[") {
+			c.Inc("colour_cases_without_any_colour")
+		}
+		out = sgr.ReplaceAllString(out, "")
+	}
 	after := fsx.Snapshot(j.Root)
 	c.Eval()
 	c.Trans(1)
@@ -98,7 +124,7 @@ func c09Case(c *rep.Ctx, r c09Replay) {
 	defer j2.Remove()
 	var rerr error
 	rpan := sut.Guard(func() {
-		if r.Route == "mkdir-root-dry" {
+		if strings.HasPrefix(r.Route, "mkdir-root-dry") {
 			rerr = gtree.MkdirFromRoot(sut.BuildRoot(f[0]), gtree.WithFileExtensions(r.Exts), gtree.WithTargetDir(j2.Target))
 		} else {
 			rerr = gtree.MkdirFromMarkdown(strings.NewReader(doc), gtree.WithFileExtensions(r.Exts), gtree.WithTargetDir(j2.Target))
@@ -176,6 +202,10 @@ func init() {
 					c09Case(c, c09Replay{Kind: "c09", Depth: append([]int{}, d...), Names: names, Exts: ex, Route: rt})
 					if len(d) <= 3 {
 						c09Case(c, c09Replay{Kind: "c09", Depth: append([]int{}, d...), Names: names, Exts: ex, Route: rt, MissingTarget: true})
+					}
+					if len(d) <= 3 {
+						c09Case(c, c09Replay{Kind: "c09", Depth: append([]int{}, d...), Names: names, Exts: ex, Route: rt, Color: true})
+						c09Case(c, c09Replay{Kind: "c09", Depth: append([]int{}, d...), Names: names, Exts: ex, Route: rt + "-alias"})
 					}
 					if len(d) <= 2 && rt != "output-dry" {
 						for _, x := range c09Extras {
